@@ -137,8 +137,11 @@ ShadowedBy(m) ==
     \E p \in seen : \E k \in DOMAIN p : p[k] = NearMiss(m) /\ (\A j \in 1..(k - 1) : p[j] # m)
                                          /\ (\E j \in (k + 1)..Len(p) : p[j] = m)
 Above(up) == up > 0
+(* the known way to get a root above the analysed directory is a marker in the directory's own path *)
+AboveTag  == IF I.where = "under" THEN "RootInsideInput:marker-in-path-of-analysed-directory"
+             ELSE "RootInsideInput:root-above-analysed-directory"
 RootDiag(cls, up, down, R) ==
-    IF Above(up) /\ down = <<>> THEN "RootInsideInput:marker-in-path-of-analysed-directory"
+    IF Above(up) THEN AboveTag
     ELSE IF AbsRoot(up, down) \in R THEN "MarkerPriority:root-not-closest"
     ELSE "MarkerPriority:wrong-root" \o B(\E m \in Markers : ShadowedBy(m), ":near-miss-before-marker")
 
@@ -149,18 +152,17 @@ DiagTry ==
         R == IF c.m = "" THEN {} ELSE RefRoots(A, X, c.m)
     IN IF t.n # c.n THEN "MarkerPriority:classes-not-tried-in-reverse-registration-order"
        ELSE IF t.hit /\ R = {} THEN
-            (IF Above(t.up) THEN "RootInsideInput:marker-in-path-of-analysed-directory"
-             ELSE "MarkerPriority:handles-without-marker:" \o t.n)
+            (IF Above(t.up) THEN AboveTag ELSE "MarkerPriority:handles-without-marker:" \o t.n)
        ELSE IF ~t.hit THEN "MarkerPriority:marker-missed" \o B(ShadowedBy(c.m), ":near-miss-before-marker")
        ELSE IF AbsRoot(t.up, t.down) \notin Closest(R) THEN RootDiag(t.n, t.up, t.down, R)
        ELSE "MarkerPriority:search-continues-after-hit"
 
 ChoiceDiag(e, S) ==      \* e: observed [cls, up, down]; S: allowed choices
     LET o == Obs(e) IN
-    IF \A s \in S : s.cls # o.cls THEN
+    IF Above(e.up) THEN AboveTag
+    ELSE IF \A s \in S : s.cls # o.cls THEN
         (IF I.override # "none" /\ ~IsClusterDir(seen) THEN "OverrideWins:class"
          ELSE IF RefHits(A, X, RegT) = {} /\ ~IsClusterDir(seen) THEN "DefaultWhenNoMarker:class"
-         ELSE IF Above(e.up) THEN "RootInsideInput:marker-in-path-of-analysed-directory"
          ELSE "MarkerPriority:wrong-class" \o B(\E m \in Markers : ShadowedBy(m), ":near-miss-before-marker"))
     ELSE IF IsClusterDir(seen) THEN "ClusterRoot"
     ELSE IF RefHits(A, X, RegT) = {} THEN "DefaultWhenNoMarker:root"
